@@ -285,8 +285,24 @@ def h_raster(c, n):
     M.RangeSampler = Sampler_
     M._tp3f = lambda x: tuple(flat(x))
     failed = None
+    edit_x = c.real("edit_x", lo=0, hi=2)
     try:
-        out = M.ToImageStack(resolution=res)(t)
+        tis = M.ToImageStack(resolution=res)
+        out = tis(t)
+        n_first = len(cones)
+        # the same transform object renders the same tree again after one node was moved through its handle
+        first_cones, first_samplers = list(cones), list(samplers)
+        del cones[:]
+        t.node(n - 1).x = edit_x
+        try:
+            tis(t)
+        except ValueError:
+            pass
+        second_cones = list(cones)
+        del cones[:]
+        cones.extend(first_cones)
+        del samplers[len(first_samplers):]
+        t.node(n - 1).x = a["x"][n - 1]
     except ValueError as e:
         failed = e
     finally:
@@ -303,6 +319,17 @@ def h_raster(c, n):
         if hit:
             matched.append(hit[0])
     c.prove("raster.every_edge_has_a_cone", sorted(matched) == want)
+    if failed is None:
+        # second rendering: every cone that touches the moved node carries its NEW position
+        moved = n - 1
+        newP = lambda i: (edit_x, a["y"][i], a["z"][i]) if i == moved else P(i)
+        ok2 = len(second_cones) == n - 1
+        m2 = []
+        for (p, q, r1, r2) in second_cones:
+            hit = [e for e in want if e not in m2 and bool(And(*[eq(u, v) for u, v in zip(p, newP(e[0]))] + [eq(u, v) for u, v in zip(q, newP(e[1]))]))]
+            if hit:
+                m2.append(hit[0])
+        c.prove("raster.second_rendering_uses_the_edited_tree", ok2 and sorted(m2) == want, f"{len(second_cones)} cones, matched {sorted(m2)}")
     # sampling box
     from symv.api import vmax, vmin
 
